@@ -17,6 +17,11 @@ STUBSETS = {
     "ascii": (["#[kani::stub(<[u8]>::is_ascii, crate::stubs::is_ascii_stub)]"],
               ["<[u8]>::is_ascii -> the byte loop of its documentation (core's word-at-a-time implementation after "
                "align_offset is intractable for CBMC)"]),
+    "tok": (["#[kani::stub(<scpi::parser::tokenizer::Tokenizer as core::iter::Iterator>::next, "
+             "crate::checks::rl::tokenizer_next_stub)]"],
+            ["<Tokenizer as Iterator>::next -> token-script stub: the message bytes are one token code per byte, restricted "
+             "by `lexable` to sequences the real lexer can emit (that automaton is C04's obligation); the native replay "
+             "spells the script out and runs the real lexer"]),
     "float": (["#[kani::stub(lexical_core::parse, crate::stubs::lexical_parse_stub)]"],
               ["lexical_core::parse::<f32|f64> -> contract stub returning the harness's symbolic float (integer "
                "requests still run the real lexical-core)"]),
@@ -414,6 +419,17 @@ for e, d in ENUMS.items():
           "all variants of the family are instantiated", cap_s=300, mem_gb=3, unwind=16,
           also=(["C09"] if (e, vi) in (("E1", 0), ("E1", 3), ("E1", 4), ("E4", 2)) else []))
 
+
+# ---------------------------------------------------------------------------- RL-tok (thorough tier; one at a time)
+for L, cap, kind, capS in ((1, 8, "t", 3600), (2, 8, "t", 5400), (3, 8, "t", 7200), (3, 1, "ta", 7200), (4, 8, "ta", 10800)):
+    H(f"c05_{kind}_rl_flat_l{L}_cap{cap}", "C05", f"rl::flat::<{L}, {cap}, _>",
+      f"the real Node::run at token level: every lexable script of exactly {L} tokens (: ? ; separator , A *C unknown "
+      f"number chardata lexer-error) on the flat tree {{A, *C}} with logging handlers (symbolic failing call, symbolic number "
+      f"of required/optional parameters pulled), response buffer ArrayVec<u8,{cap}>: hook exactly once with the returned "
+      f"error / never on success, no handler after the failing one; for well-formed units: designated handler and form, "
+      f"-113, -109, -108, offered parameters, response framing incl. the final NL",
+      f"all lexable token scripts of length {L}; flat tree; capacity {cap}", cap_s=capS, mem_gb=(45 if L >= 3 else 30),
+      family="p_rl", stubset="tok", unwind=L + 2, also=["C01", "C02", "C06", "C10", "C11", "C13"])
 
 PROPS = {
     "C07": {
